@@ -34,7 +34,8 @@ Definition touid (u : ouid) : tree := match u with None => TZ 0 | Some x => tuid
 Definition tostr (s : option string) : tree := match s with None => TZ 0 | Some x => TS x end.
 Definition tleaf (l : leaf) : tree :=
   TL [tostr (l_label l); TZ (l_u l); TZ (l_df l); tb (l_indep l);
-      match l_complex l with None => TZ 0 | Some (f, (a, b)) => TL [tb f; tuid a; tuid b] end;
+      (* first slot: 1 if the attribute is a list (never, in the model; the harness reports what it sees) *)
+      match l_complex l with None => TZ 0 | Some (a, b) => TL [TZ 0; tuid a; tuid b] end;
       match l_corr l with None => TZ 0 | Some c => TL (map (fun p => TL [tuid (fst p); TZ (snd p)]) c) end].
 Definition tnode (n : node) : tree :=
   match n with NNone => TZ 0 | NConst => TZ 1 | NLeaf u => TL [TZ 2; tuid u] | NInt u sg => TL [TZ 3; touid u; tostr (fst sg); TZ (snd sg)] end.
